@@ -130,6 +130,72 @@ CHECKS['C08'] = dict(
     technique='Lean 4 proof (stack invariant, balance, escape inverse, rebuild identity) + round-trip differential on generated documents',
     design='DESIGN.md §3 C08')
 
+CHECKS['C02'] = dict(
+    text='Lean theorem walk_accepts_generated (with walk_accepts_flat / walk_accepts_nested): for every map skeleton satisfying the decidable '
+         'hypotheses WFMap and Unambiguous, and every conformant derivation (loop instance = first segment once, then each later child in '
+         'order within its limits, required ones at least once, transparent wrapper loops), running the walker model from the state after GS '
+         'returns for every segment exactly the intended node with no error and no pending requirement, counters within limits. The '
+         'hypotheses are kernel-decided (decide +kernel) per indexed map on the regenerated map terms; maps that violate them are listed as '
+         'known findings. Counter theorems (NodeCounter = count per path with subtree reset). Tied to /repo by the walker differential (real '
+         'walk_tree driven as x12n_document drives it vs the model, per segment, on generated documents and structural mutants of every '
+         'map) and by the property oracle: generated conformant documents through the real x12n_document must give True, an empty error '
+         'tree and an accepting acknowledgement. Element-level acceptance is C15 (admissible_no_error).',
+    note=COMMON_NOTE + ' One interchange/group/set per generated document (multi-set documents under C05); conformance of element values is '
+         'generated by harness/gendoc.py and checked end to end on the real code, the element-level theorem lives in C15.',
+    technique='Lean 4 proof (walker accepts every conformant derivation; per-map hypotheses by kernel evaluation on translated maps) + walker differential + end-to-end oracle',
+    design='DESIGN.md §3 C02')
+CHECKS['C03'] = dict(
+    text='Lean theorems: one detection lemma and one isolation lemma per element-level fault kind (too long 5, too short 4, outside code list 7, '
+         'wrong class 6, bad date 8, bad time 9, missing required 1, not-used filled 10; composite 2/5/3), derived from C15 elemErrors_spec: '
+         'the reported codes are exactly the spec set of the faulty value; syntax-note kinds from C14 (one error, code 10 for E else 2, at the '
+         'note\'s first position); walker: unknown_segment_not_found / unknown_segment_isolated proved, local step lemmas for max-use, loop '
+         'repeat and mandatory-missing; the run-level statements for those three are kept as _full defs (not proved). Tied to /repo by the '
+         'fault catalogue applied at sampled positions of generated (multi-set) documents: verdict False, error with the matching code at '
+         'the injected segment/element position in the error tree and in AK3/AK4 (IK3/IK4), reported set == implied set when the real '
+         'walker matches all other segments as before, other sets stay accepted.',
+    note=COMMON_NOTE + ' PARTIAL: too-many-elements and the error-tree attachment are decided on the real code only; three structural kinds have local lemmas only.',
+    technique='Lean 4 proof (detection + isolation lemmas from C15/C14/walker) + fault-injection oracle on the real pipeline',
+    design='DESIGN.md §3 C03')
+CHECKS['C05'] = dict(
+    text='Lean model of the error tree attach state machine and of the 997/999 visitors with theorems verdict_iff_no_error, ak5_accept_iff, '
+         'ak9_accept_iff, ak9_totals_eq_recount, ack_addressed_to_sender, ack_names_every_group_and_set_in_order, itemisation_complete; the '
+         'full-strength forms that the code violates are kept as _full defs with kernel-checked counterexamples (D22, D27, D28) beside proved '
+         '_partial theorems. Tied to /repo by capturing the err_handler call sequence of the real validator on valid, faulty, multi-set, '
+         'multi-group and multi-interchange documents (4010 and 5010), replaying it through the model and comparing tree summary and '
+         'acknowledgement segments; the property oracle recounts verdict, AK5/AK9 codes and totals, addressing and itemisation on the real outputs.',
+    note=COMMON_NOTE + ' Timestamps and generated control numbers are masked; list(set()) order is compared as a multiset.',
+    technique='Lean 4 proof (error tree + acknowledgement model) + event-sequence differential + recount oracle on the real acknowledgement',
+    design='DESIGN.md §3 C05')
+CHECKS['C06'] = dict(
+    text='Lean theorems on the acknowledgement model: a complete 997/999 passes an independent structural recount (SE/GE/IEA counts, trailer '
+         'control numbers = headers\') (ack997_envelope_clean, ack999_envelope_clean), set control numbers unique, echoed values cannot add or '
+         'split elements or segments under the stated safety hypothesis on the written fields (echo_cannot_split, ack997_text_roundtrip), the '
+         'repaired visitors do not raise (ack_complete, ack999_complete), the ack selects the ack map. Tied to /repo by re-reading every real '
+         'acknowledgement with the real reader (no envelope error, recount) and re-validating it with the real validator, incl. inputs with '
+         'other delimiters and data containing ~ * : ^.',
+    note=COMMON_NOTE + ' Echo of delimiter characters is a listed finding.',
+    technique='Lean 4 proof (ack envelope = structural recount, no split) + re-read / re-validate oracle on real acknowledgements',
+    design='DESIGN.md §3 C06')
+CHECKS['C10'] = dict(
+    text='Lean model of the X12DataNode trees (rose tree, index-path addresses, map data carried on nodes) with theorems queries_agree, '
+         'get_set, set_frame, delete_removes_exactly_one, deleted_invisible, insert_after_le_before_gt, insert_keeps_sorted, copy_independent, '
+         'serialise_reflects_edits (per call and forest level). Tied to /repo by random histories of all 12 API calls with valid and invalid '
+         'paths on real trees from generated documents: after every call result/exception class and a checksum of every tree are compared with '
+         'the model, and every law is evaluated on the real code.',
+    note=COMMON_NOTE + ' copy_independent is a frame property in a model that cannot express sharing; aliasing is decided by the identity-based oracle on the real objects.',
+    technique='Lean 4 proof (editing laws on the tree model) + API-history differential + law oracle on real trees',
+    design='DESIGN.md §3 C10')
+CHECKS['C20'] = dict(
+    text='Lean model of x12norm.main over the C01 reader and C04 envelope models with theorems norm_preserves_segments, isa_line_verbatim, '
+         'one_per_line, norm_idempotent (full strength except the ISA16-empty case: counterexample proved, finding listed), fix_repairs_counts, '
+         'fix_leaves_no_count_error, fix_alters_nothing_else, norm_never_crashes; two -f statements are _partial (texts in normal form). Tied '
+         'to /repo by running the real main() in-process on files (all option combinations: eol, fix, stdout / -o / in place) built from '
+         'generated documents with corrupted counts and HL numbers, compared with the model and an independent required output; output is '
+         're-normalised and re-read with the real reader.',
+    note=COMMON_NOTE + ' Files are read by path after universal-newline translation; delimiters are not decimal digits.',
+    technique='Lean 4 proof (normaliser = reader ∘ envelope ∘ format; idempotence, count repair) + in-process runs of the real script',
+    design='DESIGN.md §3 C20')
+
 PENDING_REASON = 'check under construction in this session (see DESIGN.md §3); not yet claimed'
 
 
